@@ -38,6 +38,22 @@ fn binary_cases() -> &'static Vec<String> {
     static CELL: OnceLock<Vec<String>> = OnceLock::new();
     CELL.get_or_init(|| {
         let mut v = Vec::new();
+        // the largest coefficient at every scale against the matching power of ten: quotients and products that land exactly
+        // on (or one unit from) Decimal::MAX from every direction
+        let max = "79228162514264337593543950335";
+        for k in 1..=28usize {
+            let a = if k < 29 { format!("{}.{}", &max[..29 - k], &max[29 - k..]) } else { format!("0.{}", max) };
+            let p = format!("0.{}1", "0".repeat(k - 1));
+            let q = format!("1{}", "0".repeat(k));
+            for (x, y) in [(a.clone(), p.clone()), (a.clone(), q.clone())] {
+                v.push(format!("{}/{}", x, y));
+                v.push(format!("{}*{}", x, y));
+                v.push(format!("-{}/{}", x, y));
+            }
+            let a1 = format!("{}{}", &a[..a.len() - 1], "4");
+            v.push(format!("{}/{}", a1, p));
+            v.push(format!("{}*{}", a1, q));
+        }
         for a in pool() {
             for b in pool() {
                 for op in ["+", "-", "*", "/", "%"] {
